@@ -464,8 +464,11 @@ def check_deferral(prog, r):
     ed = view(prog, prog.one(r"rustybgp_table::Table::end_deferral"))
     r.analysed(ed.name)
     cl = [b for b, t in ed.calls(re.compile(r"rustybgp_table::Table::collect_loc_rib_paths(_impl)?"))]
-    if cl and all(ed.dominated_by_any(e, cl) for e in ed.returns()) and any(b for b in cl if ed.blocks[b]["t"]["dest"]["l"] == 0):
-        r.ok("end_deferral: every return is the result of collect_loc_rib_paths")
+    # necessary: whenever the flag was cleared, what was accumulated is handed out.  A return that no clearing write
+    # reaches (the family has no slot: nothing was deferred, nothing accumulated) may return without collecting.
+    clears = [bi for bi, si, s in field_writes(ed, "deferring")]
+    if cl and clears and all((w in cl) or ed.must_pass(w, cl, ed.returns()) for w in clears):     # w in cl: the write precedes the call in its own block
+        r.ok("end_deferral: every return after the flag is cleared is the result of collect_loc_rib_paths")
     else:
         r.fail(ed.name, "end-deferral-result", "end_deferral does not return collect_loc_rib_paths on every path", ed.loc())
     # collect_loc_rib_paths: unlimited, and the only skip is `paths.is_empty()`
